@@ -175,10 +175,26 @@ def one(ctx, case, reqs, meta):
     if res.n_sim != nsim or res.n_sim != smc.state['n_sim']:
         ctx.fail_input(case, 'reported n_sim %d is not the total over all rounds %d' % (res.n_sim, nsim), nsim, res.n_sim)
         return
+    # exact-rational model of the weights of one later population (prior and component densities from scipy as a table)
+    if total_rounds >= 2:
+        from fractions import Fraction as F
+
+        def q(v):
+            f = F(float(v))
+            return [f.numerator, f.denominator]
+        r = total_rounds - 1
+        prev, cur = pops[r - 1], pops[r]
+        th = np.column_stack([cur.outputs[p] for p in pnames])[:6]
+        mq = np.column_stack([prev.outputs[p] for p in pnames])
+        sd = np.sqrt(np.diag(np.atleast_2d(prev.cov)))
+        kern = [[q(np.prod(ss.norm.pdf(x, m_, sd))) for m_ in mq] for x in th]
+        pri = [q(math.exp(v)) for v in prior_logpdf(case['prior'], th)]
+        reqs.append(dict(op='C07.weights', prior=pri, kernel=kern, w=[q(v) for v in np.asarray(prev.weights, dtype=float)]))
+        meta.append(('weights', dict(case, population=r), [float(v) for v in np.asarray(cur.weights, dtype=float)[:6]]))
     reqs.append(dict(op='C07.history', calls=[dict(quantiles='quantiles' in c,
                                                    rounds=[[1000 * ci + i, 1] for i in range(len(c.get('thresholds', c.get('quantiles'))))])
                                               for ci, c in enumerate(case['calls'])]))
-    meta.append((case, refs, [int(p.n_batches) for p in pops]))
+    meta.append(('history', case, refs))
 
 
 def process(ctx, n):
@@ -195,10 +211,15 @@ def process(ctx, n):
             case['calls'] = [dict(c) for c in forced[i]]
         one(ctx, case, reqs, meta)
     if ctx.driver_ok and reqs:
-        for (case, refs, nbs), a in zip(meta, ctx.lean.drive(reqs)):
+        for (kind, case, refs), a in zip(meta, ctx.lean.drive(reqs)):
             m = a.get('ok')
             if m is None:
                 ctx.corr_break('driver', case, a, None)
+                continue
+            if kind == 'weights':
+                mw = [v[0] / v[1] for v in m['weights']]
+                if not np.allclose(mw, refs, rtol=1e-9, atol=1e-300):
+                    ctx.corr_break('importance-weights', case, mw, refs)
                 continue
             mrefs = [p['ref'] for p in m['pops']]
             if len(mrefs) != len(refs) or any((mr is None) != (rr is None) or (mr is not None and mr not in rr) for mr, rr in zip(mrefs, refs)):
